@@ -29,7 +29,8 @@ type In struct {
 	Kind  string   // dsc | changes
 	Op    string   // copy | move | remove
 	Names []string // listed names of the referenced files (as written in the control file)
-	Dest  string   // emptydir | samename | regularfile | missing
+	Dest  string   // emptydir | samename | samename-longer | regularfile | missing
+	Gone  int      // index+1 of a referenced file that does not exist at the source (0 = all present)
 	Event string   // none | fault | shortwrite | crash
 	At    int      // operation index of the event
 }
@@ -137,7 +138,10 @@ func execute(in In) (*result, error) {
 	// sentinels outside both directories
 	os.WriteFile(filepath.Join(root, "sentinel"), []byte("sentinel\n"), 0o644)
 	os.WriteFile(filepath.Join(root, "incoming", "sentinel"), []byte("sentinel-2\n"), 0o644)
-	for _, n := range in.Names {
+	for i, n := range in.Names {
+		if in.Gone == i+1 {
+			continue
+		}
 		p := resolve(src, n)
 		os.MkdirAll(filepath.Dir(p), 0o755)
 		os.WriteFile(p, []byte(content(n)), 0o644)
@@ -152,6 +156,14 @@ func execute(in In) (*result, error) {
 		if len(in.Names) > 0 {
 			os.WriteFile(filepath.Join(dst, filepath.Base(in.Names[0])), []byte("old file with the same name\n"), 0o644)
 		}
+	case "samename-longer":
+		// files of the same names that are LONGER than what will be copied over them (control file included)
+		os.MkdirAll(dst, 0o755)
+		long := strings.Repeat("old and longer content\n", 8000)
+		if len(in.Names) > 0 {
+			os.WriteFile(filepath.Join(dst, filepath.Base(in.Names[len(in.Names)-1])), []byte(long), 0o644)
+		}
+		os.WriteFile(filepath.Join(dst, in.ctlName()), []byte(long), 0o644)
 	case "regularfile":
 		os.WriteFile(dst, []byte("i am a file\n"), 0o644)
 	case "missing":
@@ -243,8 +255,11 @@ func check(scen string, in In) ([]*mc.Violation, *result) {
 	srcRel, dstRel := filepath.Join("incoming", "src"), filepath.Join("incoming", "dst")
 	ctlSrc, ctlDst := filepath.Join(srcRel, in.ctlName()), filepath.Join(dstRel, in.ctlName())
 	ctlOrig := res.before[ctlSrc]
-	_, ctlInDst := res.after[ctlDst]
-	dstIsDir := in.Dest == "emptydir" || in.Dest == "samename"
+	ctlNow, ctlInDst := res.after[ctlDst]
+	if old, was := res.before[ctlDst]; was && ctlInDst && ctlNow == old {
+		ctlInDst = false // the untouched file of the same name that was there before is not "the control file in the destination"
+	}
+	dstIsDir := in.Dest == "emptydir" || in.Dest == "samename" || in.Dest == "samename-longer"
 
 	// I5 containment (always): every path the library touched lies in the control file's directory or the destination; sentinels intact
 	for _, op := range res.ops {
@@ -349,16 +364,28 @@ func check(scen string, in In) ([]*mc.Violation, *result) {
 		// no event, or the operation claims success despite one: complete success is required (I4)
 		if res.err != nil {
 			// legitimate failures without any injected event: destination is a regular file / missing
-			if (dstIsDir || in.Op == "remove") && len(features(in)) == 0 {
+			if (dstIsDir || in.Op == "remove") && len(features(in)) == 0 && in.Gone == 0 {
 				// plain names only: uploads whose listed names are not plain file names may be refused
 				bad("operation-succeeds", "nil error for a well-formed upload and destination", res.err.Error())
 			} else if ctlInDst && dstIsDir {
 				bad("error-implies-control-file-not-in-destination", "control file absent from the destination", "present")
 			}
+			if in.Op == "move" && res.after[ctlSrc] != ctlOrig {
+				bad("failed-move-keeps-control-file-at-source", "control file intact at its source", "missing or changed")
+			}
+			if in.Op == "remove" {
+				if _, still := res.after[ctlSrc]; !still {
+					bad("failed-remove-keeps-control-file", "control file still present after a failed Remove", "gone")
+				}
+			}
 			break
 		}
 		if !dstIsDir && in.Op != "remove" {
 			bad("non-directory-destination-is-an-error", "error", "nil")
+			break
+		}
+		if in.Gone > 0 && in.Event == "none" {
+			bad("failure-is-reported", "an error is returned when a referenced file does not exist", "nil error")
 			break
 		}
 		if in.Event != "none" && in.At < len(res.ops) {
@@ -421,7 +448,7 @@ func check(scen string, in In) ([]*mc.Violation, *result) {
 }
 
 func Run(r *mc.Run) {
-	r.Rule = "kind {dsc, changes} x operation {copy, move, remove} x 0..3 referenced files x destination {empty dir, dir holding a same-named file, regular file, missing} plus listed-name shapes {plain, sub/x, ../x, ../../x, /abs/x, ./x} on each position of a 2-file upload; for each base case the fault-free execution, then for EVERY file-system operation index k the library performs: an injected error at k, a short write at k (writes), and a crash immediately before k; each on a fresh directory tree. Non-trivial = an event was injected; distinct by construction"
+	r.Rule = "kind {dsc, changes} x operation {copy, move, remove} x 0..3 referenced files x destination {empty dir, dir holding a shorter / a longer same-named file (and control file), regular file, missing}; a referenced file missing at the source at each position; plus listed-name shapes {plain, sub/x, ../x, ../../x, /abs/x, ./x} on each position of a 2-file upload; for each base case the fault-free execution, then for EVERY file-system operation index k the library performs: an injected error at k, a short write at k (writes), and a crash immediately before k; each on a fresh directory tree. Non-trivial = an event was injected; distinct by construction"
 	r.Assume = []string{"an injected failure of the advisory Stat of the destination, or of closing a file opened for reading, may be swallowed: then complete success is required instead of an error",
 		"a control file that lists itself is outside the alphabet", "durability (fsync, directory-entry reordering after power loss) is not modelled: the property speaks of visibility order"}
 	if b, err := os.ReadFile(os.Getenv("VERIF_INSTR_REPORT")); err == nil {
@@ -435,7 +462,7 @@ func Run(r *mc.Run) {
 	var bases []In
 	for _, kind := range []string{"dsc", "changes"} {
 		for _, op := range []string{"copy", "move", "remove"} {
-			dests := []string{"emptydir", "samename", "regularfile", "missing"}
+			dests := []string{"emptydir", "samename", "samename-longer", "regularfile", "missing"}
 			if op == "remove" {
 				dests = []string{"emptydir"}
 			}
@@ -444,6 +471,10 @@ func Run(r *mc.Run) {
 					bases = append(bases, In{Kind: kind, Op: op, Names: names, Dest: d, Event: "none"})
 				}
 				if d == "emptydir" {
+					// a referenced file that does not exist at the source, at every position of a 3-file upload
+					for g := 1; g <= 3; g++ {
+						bases = append(bases, In{Kind: kind, Op: op, Names: plain[3], Dest: d, Event: "none", Gone: g})
+					}
 					for _, s := range shapes {
 						bases = append(bases, In{Kind: kind, Op: op, Names: []string{s, "hello_1.0.orig.tar.gz"}, Dest: d, Event: "none"})
 						bases = append(bases, In{Kind: kind, Op: op, Names: []string{"hello_1.0.orig.tar.gz", s}, Dest: d, Event: "none"})
